@@ -675,14 +675,25 @@ func oracleC01(e *Env, i int, op *Op, res string, before map[uint32]bool) *Viola
 				return &Violation{Prop: "C01", Key: "C01:oci-digest", What: fmt.Sprintf("object %d OCIBlobDigest() is not the SHA-256 of the stored bytes", d.ID()), Op: i}
 			}
 		}
-		if md != nil && md.Kind == "raw" {
+		// the metadata option given last is the one in effect
+		lastMD := -1
+		for k, o := range di.Opts {
+			switch o.Kind {
+			case "md", "part", "sbom", "crypto", "sig":
+				lastMD = k
+			}
+		}
+		if lastMD >= 0 && di.Opts[lastMD].Kind == "md" && di.Opts[lastMD].MD.Kind == "raw" {
 			exp := make([]byte, 384)
-			copy(exp, md.B)
+			copy(exp, di.Opts[lastMD].MD.B)
 			if !bytes.Equal(rc.b, exp) {
 				return &Violation{Prop: "C01", Key: "C01:metadata", What: fmt.Sprintf("object %d metadata read back differs", d.ID()), Op: i}
 			}
 		}
-		for _, o := range di.Opts {
+		for k, o := range di.Opts {
+			if k != lastMD {
+				continue
+			}
 			switch o.Kind {
 			case "part":
 				fs, pt, arch, err := d.PartitionMetadata()
